@@ -149,6 +149,7 @@ CaseResult run_mapped(const RunCtx &ctx, TapeReader &t, unsigned size_hint) {
             else idx.reset(new Index(keys.begin(), keys.end(), fa)), res.label("built_from_range");
             if (!mapped_queries<K>(res, *idx, keys, queries, use_raw ? "raw-file-built" : "range-built", nq, long_run, outside, Eps)) {}
             res.nontrivial = long_run && outside;
+            if (mem) res.nontrivial = n <= 3 || meta.starts_lowest || meta.top_reached || outside;
             if (long_run) res.label("nt_run_longer_than_range");
         } else {
             // C12
